@@ -14,7 +14,7 @@ From Arche Require Import Model.Base Model.Pool Model.Filter Model.World Model.O
   Proofs.Tables Proofs.Bits Proofs.Store Proofs.Graph Proofs.WorldInv Proofs.Cursor
   Proofs.Frame Proofs.StepFrame
   Proofs.RelGraph Proofs.RelWorld Proofs.RelRefine Proofs.QueryExact Proofs.CacheInv Proofs.BatchMove Proofs.BatchExchange
-  Proofs.BatchSetRel.
+  Proofs.BatchSetRel Proofs.EventsExact.
 
 Definition seg_ents (w : world) (s : seg) : list Entity :=
   if s_skip s then [] else take (s_end s - s_start s) (drop (s_start s) (tbl_ents w (s_tid s))).
@@ -24,7 +24,8 @@ Lemma exchange_table_seg w live src st add rem rel w' sg :
   Forall (fun id => id < length (w_reg w)) add -> (add <> [] \/ rem <> []) ->
   exchange_table w src add rem rel = Some (w', sg) ->
   exists dt' pre, w_tables w' !! s_tid sg = Some dt' /\ t_ents dt' = pre ++ t_ents st /\
-    s_start sg = length pre /\ s_end sg = length pre + tlen st /\ s_skip sg = false /\ s_tid sg <> src.
+    s_start sg = length pre /\ s_end sg = length pre + tlen st /\ s_skip sg = false /\ s_tid sg <> src /\
+    exists sn, w_nodes w !! t_node st = Some sn /\ s_old sg = Some (n_mask sn, n_rel sn, t_target st).
 Proof.
   intros [S G] Hst Hstne Hreg Hnonempty H.
   unfold exchange_table in H. rewrite Hst in H.
@@ -71,8 +72,9 @@ Proof.
     destruct (w_nodes w3 !! t_node tt); [|done]. destruct (_ || _); [done|]. destruct (_ || _); [done|].
     unfold retire_table. destruct (w_tables w3 !! src) as [t5|]; [|done]. destruct (w_nodes w3 !! t_node t5); [|done].
     simpl. by rewrite list_lookup_insert_ne. }
-  exists dt2, (t_ents dt). cbn [s_tid s_start s_end s_skip].
-  split; [rewrite Hoth4 by done; by rewrite Ht3|]. split; [done|]. rewrite Hstartv. unfold tlen. done.
+  exists dt2, (t_ents dt). cbn [s_tid s_start s_end s_skip s_old].
+  split; [rewrite Hoth4 by done; by rewrite Ht3|]. split; [done|]. rewrite Hstartv. unfold tlen.
+  do 4 (split; [done|]). by exists sn.
 Qed.
 
 Lemma flat_map_ext_mem {X Y} (f g : X -> list Y) l : (forall x, x ∈ l -> f x = g x) -> flat_map f l = flat_map g l.
@@ -81,12 +83,22 @@ Proof.
   intros y Hy. apply H. by apply elem_of_list_further.
 Qed.
 
+Lemma Forall_impl_mem {X} (P Q : X -> Prop) l : Forall P l -> (forall x, x ∈ l -> P x -> Q x) -> Forall Q l.
+Proof.
+  induction 1 as [|x r Hx _ IH]; intros H; constructor.
+  - apply H; [apply elem_of_list_here|done].
+  - apply IH. intros y Hy. apply H. by apply elem_of_list_further.
+Qed.
+
 Lemma xloop_segs live add rem rel : (add <> [] \/ rem <> []) -> forall l w segs0 pr w' segs,
   NoDup l -> world_okr w live -> cache_ok w -> Forall (fun id => id < length (w_reg w)) add ->
   (forall tid, tid ∈ l -> tbl_ents w tid <> []) ->
   xloop add rem rel w l segs0 pr = inl (Some (w', segs)) ->
   exists new, segs = segs0 ++ new /\ flat_map (seg_ents w') new = table_ents w l /\
-    Forall (fun s => s_skip s = false /\ s_start s < s_end s /\ s_end s <= length (tbl_ents w' (s_tid s))) new /\
+    Forall (fun s => s_skip s = false /\ s_start s < s_end s /\ s_end s <= length (tbl_ents w' (s_tid s)) /\
+                     exists om orl ot, s_old s = Some (om, orl, ot) /\
+                       forall e, e ∈ seg_ents w' s ->
+                         e ∈ live /\ ent_mask w e = Some om /\ ent_rel w e = Some orl /\ ent_target w e = Some ot) new /\
     (forall tid0 t0, tid0 ∉ l -> w_tables w !! tid0 = Some t0 ->
        exists t0', w_tables w' !! tid0 = Some t0' /\ t_ents t0 `prefix_of` t_ents t0').
 Proof.
@@ -105,7 +117,7 @@ Proof.
   destruct (exchange_table_rok w live tid st add rem rel w1 s K C Hst Htne Hreg Hnonempty Hx)
     as (sn & mask & target & dst & newrel & Hsn & Hmask & Htarget & Hadd & Hrem & HP & Hsd & K1 & C1 & F1 & Hp1 & Hil1 & HN1 & Hoth1 & Hmoved1 & Htab1 & Hdst1).
   destruct (exchange_table_seg w live tid st add rem rel w1 s K Hst Htne Hreg Hnonempty Hx)
-    as (dt' & pre & Hdt' & Hdte & Hss & Hse & Hsk & Hsne).
+    as (dt' & pre & Hdt' & Hdte & Hss & Hse & Hsk & Hsne & sn0 & Hsn0 & Hsold).
   assert (Hreg1 : Forall (fun id => id < length (w_reg w1)) add) by (by rewrite (fr_reg _ _ F1)).
   assert (Hr1 : forall tid', tid' ∈ r -> exists t t1, w_tables w !! tid' = Some t /\ w_tables w1 !! tid' = Some t1 /\ t_node t1 = t_node t /\
             ((tid' <> dst /\ t_ents t1 = t_ents t) \/ (tid' = dst /\ t_ents t1 = t_ents t ++ t_ents st))).
@@ -146,17 +158,39 @@ Proof.
     destruct (so_rows _ _ (wr_store _ _ K) tid st 0 e0 Hst Hrow0) as [_ Hloc2]. rewrite Hloc in Hloc2. injection Hloc2 as Heq _.
     apply Hnotin. by rewrite <- Heq. }
   destruct (Hpre (s_tid s) dt' Hstid Hdt') as (dt'' & Hdt'' & Hpfx).
+  assert (Hsegents : seg_ents w' s = t_ents st).
+  { unfold seg_ents. rewrite Hsk, Hss, Hse. rewrite (tbl_ents_ne _ _ _ Hdt'').
+    destruct Hpfx as [ext Hext]. rewrite Hext, Hdte, <- app_assoc.
+    rewrite drop_app_alt by done. replace (length pre + tlen st - length pre) with (length (t_ents st)) by (unfold tlen; lia).
+    by rewrite take_app. }
   exists (s :: new). split; [by rewrite <- app_assoc|]. split.
   - cbn [flat_map table_ents]. f_equal.
-    + unfold seg_ents. rewrite Hsk, Hss, Hse. rewrite (tbl_ents_ne _ _ _ Hdt''), (tbl_ents_ne _ _ _ Hst).
-      destruct Hpfx as [ext Hext]. rewrite Hext, Hdte, <- app_assoc.
-      rewrite drop_app_alt by done. replace (length pre + tlen st - length pre) with (length (t_ents st)) by (unfold tlen; lia).
-      by rewrite take_app.
+    + by rewrite Hsegents, (tbl_ents_ne _ _ _ Hst).
     + rewrite Hflat. unfold table_ents. apply flat_map_ext_mem. intros tid' Hin'. by apply Hents1.
   - split.
-    + constructor; [|done]. split; [done|]. rewrite Hss, Hse, (tbl_ents_ne _ _ _ Hdt'').
-      destruct Hpfx as [ext Hext]. rewrite Hext, Hdte, !app_length. unfold tlen in *. split; [|lia].
-      destruct (t_ents st); [done|simpl; lia].
+    + constructor.
+      * split; [done|]. rewrite Hss, Hse, (tbl_ents_ne _ _ _ Hdt'').
+        destruct Hpfx as [ext Hext]. rewrite Hext, Hdte, !app_length. unfold tlen in *. split; [|split; [lia|]].
+        { destruct (t_ents st); [done|simpl; lia]. }
+        exists (n_mask sn0), (n_rel sn0), (t_target st). split; [done|].
+        intros e He. rewrite Hsegents in He. apply elem_of_list_lookup in He as [i Hi].
+        destruct (so_rows _ _ (wr_store _ _ K) tid st i e Hst Hi) as [Hlive Hloc]. split; [done|].
+        apply (views_of_row w live e tid i st sn0 (wr_store _ _ K) Hlive Hloc Hst Hsn0).
+      * eapply Forall_impl_mem; [exact Hall|]. intros s0 Hs0 (A1 & A2 & A3 & om & orl & ot & B1 & B2).
+        split; [done|]. split; [done|]. split; [done|]. exists om, orl, ot. split; [done|].
+        intros e He. destruct (B2 e He) as (Hlive & V1 & V2 & V3).
+        (* e sits in one of the remaining source tables, so the first step left it alone *)
+        assert (Hin_flat : e ∈ flat_map (seg_ents w') new) by (apply elem_of_list_In, in_flat_map; exists s0; split; apply elem_of_list_In; done).
+        rewrite Hflat in Hin_flat. unfold table_ents in Hin_flat. apply elem_of_list_In, in_flat_map in Hin_flat as (tid' & Hin' & Hmem).
+        apply elem_of_list_In in Hin', Hmem. rewrite (Hents1 tid' Hin') in Hmem.
+        assert (Hnst : e ∉ t_ents st).
+        { destruct (Hr1 tid' Hin') as (t & _ & Ht & _). rewrite (tbl_ents_ne _ _ _ Ht) in Hmem.
+          apply elem_of_list_lookup in Hmem as [row Hrow]. destruct (so_rows _ _ (wr_store _ _ K) tid' t row e Ht Hrow) as [_ Hloc].
+          intros Hm. apply elem_of_list_lookup in Hm as [i Hi].
+          destruct (so_rows _ _ (wr_store _ _ K) tid st i e Hst Hi) as [_ Hloc2]. rewrite Hloc in Hloc2. injection Hloc2 as -> _. done. }
+        assert (Hc1 : ent_cells w1 e = ent_cells w e) by (by apply Hoth1).
+        destruct (views_same w w1 live e (wr_store _ _ K) Hlive HN1 Hc1) as (X1 & X2 & X3 & _).
+        split; [done|]. split; [congruence|]. split; congruence.
     + intros tid0 t0 Hnot0 Ht0. assert (tid0 <> tid) by (intros ->; apply Hnot0, elem_of_list_here).
       assert (Hnr : tid0 ∉ r) by (intros Hin; apply Hnot0; by apply elem_of_list_further).
       destruct (decide (tid0 = dst)) as [->|Hd].
@@ -253,7 +287,7 @@ Proof.
   (* the re-computed skip flags are all false *)
   set (segs' := map (fun s => mkSeg (s_tid s) (s_start s) (s_end s) (table_skip w1 (s_tid s)) (s_old s)) segs).
   assert (Hsame : segs' = segs).
-  { unfold segs'. clear -Hall. induction Hall as [|s r (Hsk & Hlt & Hle) _ IH]; [done|]. simpl. rewrite IH. f_equal.
+  { unfold segs'. clear -Hall. induction Hall as [|s r (Hsk & Hlt & Hle & _) _ IH]; [done|]. simpl. rewrite IH. f_equal.
     assert (table_skip w1 (s_tid s) = false) as ->.
     { unfold table_skip, tbl_ents in *. destruct (w_tables w1 !! s_tid s) as [t|]; [|simpl in Hle; lia].
       apply Nat.eqb_neq. unfold tlen. lia. }
@@ -264,11 +298,11 @@ Proof.
   - match goal with |- omap (pos_ent ?x) _ = _ => change (pos_ent x) with (pos_ent w1) end.
     cbn [q_segs]. rewrite enum_ents.
     + rewrite Hflat. apply table_ents_nonempty_eq.
-    + eapply Forall_impl; [exact Hall|]. intros s (_ & H1 & H2). split; [lia|done].
+    + eapply Forall_impl; [exact Hall|]. intros s (_ & H1 & H2 & _). split; [lia|done].
   - (* as many positions as entities *)
     cbn [q_segs].
     assert (Hlen : length (enum segs) = length (flat_map (seg_ents w1) segs)).
-    { clear -Hall. induction Hall as [|s r (Hsk & Hlt & Hle) _ IH]; [done|]. unfold enum in *. simpl.
+    { clear -Hall. induction Hall as [|s r (Hsk & Hlt & Hle & _) _ IH]; [done|]. unfold enum in *. simpl.
       rewrite !app_length, IH. f_equal. unfold seg_positions, seg_ents. rewrite Hsk, map_length, seq_length, take_length, drop_length. lia. }
     rewrite Hlen, Hflat, table_ents_nonempty_eq. by rewrite total_len_ents.
 Qed.
